@@ -147,4 +147,34 @@ def oracle (k : UCase) (obs : Term) : String :=
       | none => "fail clause=unparsable-observation"
   | _ => "fail clause=unparsable-observation"
 
+/-- evidence only: which clauses of the checker judged this case, and how the run ended -/
+def stats (k : UCase) (obs : Term) : String :=
+  if !USpec.wfCase k.codec k.u k.cs then "skipped-not-wf=1"
+  else
+    let cls := USpec.allClasses k.codec k.u k.cs
+    let weak := cls.contains .weak
+    let res := match obs with
+      | .list [.atom "obs", _, r] => uresOf? r
+      | _ => none
+    let outcome := match res with
+      | some (.reset _) => "outcome-reset=1"
+      | some (.ok msgs) =>
+          if !(USpec.reachMsgs msgs).isEmpty then "outcome-announced=1"
+          else if msgs.isEmpty then "outcome-nothing=1" else "outcome-withdrawn=1"
+      | _ => "outcome-other=1"
+    let hasDisc := cls.any fun x => match x with | .discardOrTaw _ => true | _ => false
+    let hasDup := cls.any fun x => match x with | .dup _ _ => true | _ => false
+    let mustTaw := cls.contains .taw || cls.contains .tawOrReset
+    let judged :=
+      if weak then (if USpec.prefixMustTaw k.codec k.u k.cs then "judged-weak-prefix-taw=1" else "judged-weak-only=1")
+      else if mustTaw then "judged-must-taw=1"
+      else if hasDisc then
+        (match res with
+         | some (.ok msgs) =>
+            if (USpec.reachMsgs msgs).isEmpty then "judged-discard-class-withdrawn=1" else "judged-discard-class-discarded=1"
+         | _ => "judged-discard-class-reset=1")
+      else if hasDup then "judged-dup=1"
+      else "judged-clean=1"
+    s!"judged=1 {judged} {outcome}" ++ (if hasDup then " has-dup=1" else "") ++ (if cls.contains .tawOrReset then " has-taw-or-reset=1" else "")
+
 end Rbgp.Wire.UCodec
